@@ -350,21 +350,8 @@ def fd_alternatives(f, facts, roles):
 
 
 def ebp_def(f, d):
-    """expression of the definition at location d (statement or call)"""
-    eb = ExprBuilder(f, multi='phi')
-    if isinstance(d, tuple) and d and d[0] == 'S':
-        return eb.local(d[1])
-    if isinstance(d, tuple) and d and d[0] == 'F':
-        inner, path = d[1], d[2]
-        if inner == 'entry' or (isinstance(inner, tuple) and inner and inner[0] == 'F'):
-            return E('unknown', 'field of %s' % (inner,))
-        st = f.at(inner)
-        if not f.is_term(inner) and st['rv']['k'] == 'agg' and len(path) == 1 and path[0] is not None and path[0] < len(st['rv']['ops']):
-            return eb.operand(st['rv']['ops'][path[0]])
-        e = eb.call(st) if f.is_term(inner) else eb.rvalue(st['rv'])
-        return E('proj', e, tuple('.%s' % i for i in path), None)
-    st = f.at(d)
-    return eb.call(st) if f.is_term(d) else eb.rvalue(st['rv'])
+    from .kernel import def_expr
+    return def_expr(f, d)
 
 
 def E_roots(w):
@@ -633,8 +620,25 @@ def r9_metadata(r, facts):
     f = facts.fn_opt('io_uring::fs::timestamp')
     if r.require(f is not None, 'timestamp', 'statx timestamp conversion not found'):
         eb = ExprBuilder(f, multi='phi')
-        # sign test
-        neg = [c for c in bool_call_switches(f, lambda t: (t.get('callee') or '').endswith('::is_negative'))]
+        # sign test: is_negative(), `tv_sec < 0`, `tv_sec >= 0`, ... -> (switch bb, target when negative, target when not)
+        neg = []
+        for c in bool_call_switches(f, lambda t: (t.get('callee') or '').endswith('::is_negative')):
+            neg.append({'bb': c['bb'], 'true': c['true'], 'false': c['false']})
+        for b, blk in enumerate(f.blocks):
+            t = blk['term']
+            if blk['cleanup'] or t['k'] != 'switch':
+                continue
+            e = eb.operand(t['discr'])
+            if e[0] == 'bin' and e[1] in ('Lt', 'Ge', 'Gt', 'Le') and any(fam.last_field(x) == 'tv_sec' for x in (e[2], e[3])) and any(x[0] == 'const' and x[1] == 0 for x in (e[2], e[3])):
+                sec_left = fam.last_field(e[2]) == 'tv_sec'
+                vals = {int(v): tg for v, tg in t['targets']}
+                t_true, t_false = vals.get(1, t['otherwise']), vals.get(0)
+                # does "true" mean negative?  tv_sec < 0 / 0 > tv_sec: yes; tv_sec >= 0 / 0 <= tv_sec: no
+                op = e[1] if sec_left else {'Lt': 'Gt', 'Gt': 'Lt', 'Le': 'Ge', 'Ge': 'Le'}[e[1]]
+                if op == 'Lt':
+                    neg.append({'bb': b, 'true': t_true, 'false': t_false})
+                elif op == 'Ge':
+                    neg.append({'bb': b, 'true': t_false, 'false': t_true})
         for loc, s_ in f.assigns():
             rv = s_['rv']
             if rv['k'] == 'cast' and rv.get('ck') == 'IntToInt' and rv.get('from') == 'i64' and rv.get('to') == 'u64':
@@ -652,7 +656,7 @@ def r9_metadata(r, facts):
                 r.require(not any(fam.last_field(x) == 'tv_nsec' for x in subexprs(d)), 'timestamp/nsec-subtracted', 'for times before 1970 tv_nsec is subtracted together with the seconds; statx nanoseconds always count forward from tv_sec (-1.25 s is tv_sec=-2, tv_nsec=750000000)', f.where(loc))
                 r.require(any(c for c in neg if f.edge_dominates((c['bb'], c['true']), loc)), 'timestamp/sub-unguarded', 'a duration is subtracted from UNIX_EPOCH outside the negative-seconds edge', f.where(loc))
         r.require(bool(neg), 'timestamp/no-sign-test', 'statx tv_sec is signed but the conversion has no sign test (times before 1970)', f.where())
-    r.floor(9)
+    r.floor(8)
 
 
 STAT_H = '/usr/include/linux/stat.h'
